@@ -210,6 +210,13 @@ class AppSocket:
         if wf and self.idx == wf[0] and self.s.now >= wf[1]:
             # a half-dead path: the peer has become unreachable for writes while nothing (no reset, no end of stream) is read
             raise OSError(errno.EHOSTUNREACH, "No route to host")
+        wo = getattr(self.s, "write_fails_once", None)
+        if wo and self.idx == wo[0] and self.s.now >= wo[1] and not getattr(self.s, "write_failed_once", False):
+            # a TRANSIENT failure of one write (send buffer momentarily full with a socket timeout set, ENOBUFS, ...): this
+            # write fails, the connection and every later write are fine
+            self.s.write_failed_once = True
+            import socket as _so
+            raise _so.timeout("timed out")
         self.out += data
         frames, self.out = parse_client_frames(self.out)
         for fin, op, payload, masked in frames:
@@ -234,6 +241,9 @@ class AppSocket:
             if line.lower().startswith("sec-websocket-key:"):
                 key = line.split(":", 1)[1].strip()
         self.request = req
+        if not hasattr(self.s, "requests"):
+            self.s.requests = []
+        self.s.requests.append((self.idx, req))
         for line in req.split("\r\n"):
             if line.lower().startswith("x-conn-seq:"):
                 # (scenarios with a callable `header`) which value THIS connection's request carries
